@@ -1,8 +1,27 @@
-//! Builders for src/frame/data.rs used by the streams-layer harnesses.
+//! Contracts for src/frame/data.rs (DATA, RFC 9113 §6.1).
+//!
+//! C01/C12: `Data::load`: without PADDED the data is the whole payload; with PADDED (0x8) the first octet
+//!      p is the pad length, p >= payload length -> Err(TooMuchPadding), otherwise the data is EXACTLY
+//!      octets [1 .. n-p) of the payload (same buffer, start + 1, length n-1-p); END_STREAM (0x1) is
+//!      carried, undefined flag bits are dropped; `flow_controlled_len()` is the WHOLE payload length n
+//!      (§6.9.1: pad length octet and padding are flow controlled).
+//!      `Data::encode_chunk`: head = (length = remaining octets, type 0, flags, stream id) followed by
+//!      exactly those octets; the frame's buffer is drained.
+//! C09: DATA on stream 0 -> Err(InvalidStreamId) (connection error PROTOCOL_ERROR).
+//! C08: no (head, payload) panics: every flag octet, stream id, payload length 0..=2^24-1, first octet.
 #![allow(dead_code, unused_imports)]
 use super::*;
 
+pub(crate) fn data_raw_flags<T>(d: &Data<T>) -> u8 {
+    d.flags.0
+}
+
+pub(crate) fn data_pad_len<T>(d: &Data<T>) -> Option<u8> {
+    d.pad_len
+}
+
 // ---- streams-layer helpers begin (inherent method: reachable crate-wide although `frame::data` is private)
+// (copied verbatim from /verif/kani/frame__data.rs so that this file can replace it)
 impl Data<Bytes> {
     /// The frame as `Data::load` produces it for a PADDED frame with `pad` padding octets.
     pub(crate) fn vk_with_padding(mut self, pad: Option<u8>) -> Self {
@@ -14,3 +33,121 @@ impl Data<Bytes> {
     }
 }
 // ---- streams-layer helpers end
+
+#[cfg(kani)]
+mod proofs {
+    use super::*;
+    use crate::frame::verif_kani::{
+        any_head_of, any_payload_static, err_class, spec_head_fields, E_PADDING, E_STREAM_ID, MAX_LEN24, T_DATA, WIRE_MAX,
+    };
+    use crate::verif_kani::any_stream_id;
+    use bytes::BytesMut;
+
+    // @harness id=data_load props=C01,C12,C09,C08,C03 kind=complete tier=quick fn=Data::load,Data::flow_controlled_len,Data::is_end_stream,Data::stream_id,Data::payload,DataFlags::load,DataFlags::is_padded,DataFlags::is_end_stream
+    #[kani::proof]
+    fn data_load() {
+        // requires: nothing but head.kind() == Data (dispatch in decode_frame)
+        let head = any_head_of(Kind::Data);
+        // a `Bytes` over leaked memory (static vtable): what backs a `Bytes` is the bytes crate's business
+        let s = any_payload_static(WIRE_MAX);
+        let (base, n, first) = (s.as_ptr(), s.len(), if s.is_empty() { 0 } else { s[0] });
+
+        let r = Data::load(head, Bytes::from_static(s));
+
+        let sid = u32::from(head.stream_id());
+        let padded = head.flag() & 0x8 != 0;
+        let end_stream = head.flag() & 0x1 != 0;
+        let p = first as usize;
+        let too_much = padded && (n == 0 || p >= n);
+        assert!(r.is_err() == (sid == 0 || too_much), "data.load.err_iff_stream_zero_or_too_much_padding");
+        match &r {
+            Ok(d) => {
+                assert!(d.stream_id() == head.stream_id(), "data.load.stream_id_from_head");
+                assert!(d.is_end_stream() == end_stream, "data.load.end_stream_is_flag_bit_0");
+                assert!(data_raw_flags(d) == head.flag() & 0x9, "data.load.undefined_flag_bits_dropped");
+                if padded {
+                    assert!(d.payload().len() == n - 1 - p, "data.load.padded_data_len_is_n_minus_1_minus_pad");
+                    assert!(d.payload().as_ptr() == base.wrapping_add(1), "data.load.padded_data_starts_after_pad_length_octet");
+                    assert!(data_pad_len(d) == Some(first), "data.load.padded_records_pad_len");
+                } else {
+                    assert!(d.payload().len() == n, "data.load.unpadded_data_is_whole_payload_len");
+                    assert!(n == 0 || d.payload().as_ptr() == base, "data.load.unpadded_data_is_whole_payload_start");
+                    assert!(data_pad_len(d).is_none(), "data.load.unpadded_no_pad_len");
+                }
+                assert!(d.flow_controlled_len() == n, "data.flow_controlled_len.is_whole_frame_payload");
+            }
+            Err(e) => {
+                let c = err_class(e);
+                assert!(c == E_STREAM_ID || c == E_PADDING, "data.load.err_class");
+                assert!(c != E_STREAM_ID || sid == 0, "data.load.invalid_stream_id_only_on_stream_0");
+                assert!(c != E_PADDING || too_much, "data.load.too_much_padding_only_if_pad_ge_len");
+            }
+        }
+        kani::cover!(r.is_ok() && padded && p == 255 && n == WIRE_MAX && end_stream, "cover.ok_max_padding_longest_end_stream");
+        kani::cover!(r.is_ok() && !padded && n == 0 && head.flag() == 0xf6, "cover.ok_empty_unpadded_junk_flags");
+        kani::cover!(r.is_err() && sid == 0 && !padded, "cover.err_stream_zero");
+        kani::cover!(r.is_err() && sid != 0 && p == n, "cover.err_pad_equals_len");
+        std::mem::forget(r);
+    }
+
+    // @harness id=data_encode_chunk props=C12,C01,C08 kind=bounded bound=chunk<=32B tier=quick fn=Data::encode_chunk,Data::new,Data::set_end_stream,Data::head,Data::is_end_stream,DataFlags::set_end_stream,DataFlags::unset_end_stream
+    #[kani::proof]
+    #[kani::unwind(3)]
+    #[kani::stub(bytes::BytesMut::reserve_inner, crate::frame::verif_kani::sink_must_not_grow)]
+    fn data_encode_chunk() {
+        // unwind 3: `BufMut::put`'s `while src.has_remaining()` (a `Bytes` is one chunk)
+        const CHUNK_MAX: usize = 32;
+        let id = any_stream_id();
+        // requires (asserted by Data::new): stream id != 0
+        kani::assume(!id.is_zero());
+        // the chunk: a `Bytes` over a leaked fixed array (static vtable), symbolic length and content
+        let arr: &'static [u8; CHUNK_MAX] = Box::leak(Box::new(kani::any()));
+        let n: usize = kani::any();
+        kani::assume(n <= CHUNK_MAX);
+        let src: &'static [u8] = &arr[..n];
+        let mut d = Data::new(id, Bytes::from_static(src));
+        assert!(!d.is_end_stream() && data_raw_flags(&d) == 0 && data_pad_len(&d).is_none(), "data.new.no_flags_no_padding");
+        let eos: bool = kani::any();
+        if kani::any() {
+            // set then possibly unset: the flag is the LAST value given
+            d.set_end_stream(!eos);
+        }
+        d.set_end_stream(eos);
+        assert!(d.is_end_stream() == eos, "data.set_end_stream.is_end_stream");
+        assert!(d.head() == Head::new(Kind::Data, if eos { 0x1 } else { 0x0 }, id), "data.head.kind_flags_stream_id");
+
+        // sink: the BytesMut FramedWrite uses, with room for the frame (stub: see sink_must_not_grow).
+        // requires (asserted by encode_chunk): dst.remaining_mut() >= len — always true for BytesMut.
+        let mut wire = BytesMut::with_capacity(64);
+        d.encode_chunk(&mut wire);
+        let written = wire.len();
+
+        assert!(written == 9 + n, "data.encode_chunk.writes_head_plus_all_remaining_octets");
+        let (len, ty, fl, r, wid) = spec_head_fields(&wire[..9]);
+        assert!(len == n && len <= MAX_LEN24, "data.encode_chunk.length_field_is_payload_remaining");
+        assert!(ty == T_DATA, "data.encode_chunk.type_is_0");
+        assert!(fl == if eos { 0x1 } else { 0x0 }, "data.encode_chunk.flags_exactly_end_stream_or_none_never_padded");
+        assert!(!r && wid == u32::from(id), "data.encode_chunk.stream_id");
+        let i: usize = kani::any();
+        if i < n {
+            assert!(wire[9 + i] == src[i], "data.encode_chunk.payload_verbatim");
+        }
+        assert!(d.payload().is_empty(), "data.encode_chunk.drains_the_frame");
+
+        // and the read path gets the same frame back
+        let head = Head::parse(&wire[..9]);
+        assert!(head.kind() == Kind::Data, "data.roundtrip.dispatched_as_data");
+        let back = Data::load(head, Bytes::from_static(src));
+        assert!(
+            matches!(&back, Ok(b) if b.stream_id() == id && b.is_end_stream() == eos && b.payload().len() == n
+                && data_pad_len(b).is_none() && b.flow_controlled_len() == n),
+            "data.roundtrip.load_of_encode_is_identity"
+        );
+        kani::cover!(n == CHUNK_MAX && eos && i == CHUNK_MAX - 1 && src[i] == 0x77, "cover.full_chunk_end_stream");
+        kani::cover!(n == 0 && eos, "cover.empty_end_stream");
+        kani::cover!(n == 5 && !eos, "cover.small_no_end_stream");
+        std::mem::forget(back);
+        std::mem::forget(d);
+        std::mem::forget(wire);
+    }
+}
